@@ -161,7 +161,7 @@ class C18(Prop):
                   'entry < 2^24 are part of the limits (the code truncates silently beyond).')
     design_ref = '§5 C18'
     rule = ('lists of 0..6 entries of all six kinds, MIME names well-known (every table row is used, as enum and as bytes), near misses of well-known names (other case, white space, one character off) or custom at lengths 1,2,127,128 and out-of-limit '
-            '0,129,200; tags at 0,1,254,255 and out-of-limit 256,300; credentials 0..70 bytes and at the byte boundaries of their length fields (user names of 255..65535 bytes, tokens and item contents of 255..70000 bytes); a third of the lists built through rsocket/extensions/helpers.py; routing item objects that were encoded before with other tags and then given new ones (by assignment, in place, by parse()); routing entries and tag lists under other MIME types also built as TaggingMetadata with the type given as bytes, as a WellKnownMimeType value or as the enum member; batches re-run in a sub-process with cbitstruct blocked (struct fallbacks of frame_helpers.py); plus truncations / bit flips / random bytes of valid composites; '
+            '0,129,200; tags at 0,1,254,255 and out-of-limit 256,300, text tags outside ASCII given as str (up to 255 bytes of 2- and 3-byte characters); credentials 0..70 bytes and at the byte boundaries of their length fields (user names of 255..65535 bytes, tokens and item contents of 255..70000 bytes); a third of the lists built through rsocket/extensions/helpers.py; routing item objects that were encoded before with other tags and then given new ones (by assignment, in place, by parse()); routing entries and tag lists under other MIME types also built as TaggingMetadata with the type given as bytes, as a WellKnownMimeType value or as the enum member; batches re-run in a sub-process with cbitstruct blocked (struct fallbacks of frame_helpers.py); plus truncations / bit flips / random bytes of valid composites; '
             'non-trivial = at least two entries or a boundary length; distinct = distinct entry list / blob')
     assumptions = ['entries are built through the repo classes; a str-typed encoding is not generated (bytes and enum values are)']
 
@@ -222,6 +222,9 @@ class C18(Prop):
                 elif k == 'route':
                     lens = [0, 1, 5, 254, 255] + ([256, 300] if bad else [])
                     items.append({'k': 'route', 'tags': [bytes(rng.getrandbits(8) for _ in range(rng.choice(lens))).hex() for _ in range(rng.choice([0, 1, 1, 2, 4]))]})
+                    if rng.random() < 0.2:
+                        # text tags outside ASCII (UTF-8 longer than the character count), incl. 255 bytes made of 2- and 3-byte characters
+                        items[-1]['tags'] = [rng.choice(['señal', 'café.menu', 'ü' * 127 + 'a', '€' * 85, 'ß', '日本語']).encode('utf-8').hex() for _ in range(rng.choice([1, 2]))]
                     if rng.random() < 0.25:
                         items[-1]['tagging'] = rng.choice(['bytes', 'value', 'enum'])
                 elif k == 'mime':
